@@ -95,7 +95,7 @@ impl Property for C04 {
         let mut t = Tape::new(tape);
         let a = model::align(ty);
         let ms = model::min_size(ty);
-        let route = t.take(4);
+        let route = t.route(4);
         let mut fuel = Fuel::small();
         fuel.max_len = 6;
         let v = gen_value(ty, &mut t, &mut fuel);
